@@ -264,6 +264,9 @@ impl Certs {
             .with_custom_certificate_verifier(Arc::new(ver))
             .with_no_client_auth();
         cfg.alpn_protocols = alpn.iter().map(|a| a.as_bytes().to_vec()).collect();
+        // no session resumption: every handshake of a vector asks the verifier, so "the name checked" is observed
+        // per connection also when a history made an earlier handshake with the same server
+        cfg.resumption = rustls::client::Resumption::disabled();
         (cfg, asked)
     }
 }
@@ -589,6 +592,10 @@ where
                         req.headers().get("x-marker").and_then(|h| h.to_str().ok()).unwrap_or("-")
                     );
                     log.lock().unwrap()[idx].reqs.push(line);
+                    if req.uri().path().starts_with("/hold-") {
+                        // kept in flight: with a paused clock this second passes only when every other task is idle
+                        tokio::time::sleep(std::time::Duration::from_secs(1)).await;
+                    }
                     let is_connect = req.method() == http::Method::CONNECT;
                     let body = req.into_body();
                     // like a real server, do not wait for ever for a body the client announced and never sends
